@@ -94,6 +94,9 @@ def run_wrapper_property(prop, tier, seed, a, t0, extra_tasks=None, extra_eviden
     budget = dict(BUDGET[tier])
     if prop == 'C05' and tier == 'quick':
         budget.update({'hard_s': 110, 'max_unknown': 1, 'fallback_s': 15})      # division: most 16/32-bit float-route queries are hopeless in the quick budget
+    if prop == 'C05' and tier == 'thorough':
+        # measured: what the portfolio does not decide about a divider in a few minutes it does not decide in an hour; keep the run to about two hours
+        budget.update({'hard_s': 1200, 'max_unknown': 4, 'z3_ms': 60000, 'fallback_s': 240})
     ladder = configs.check_ladder(build.REPO)
     cfgs = cfgs or configs.for_tier(tier)
     if a.configs:
